@@ -388,6 +388,12 @@ func (x *Exec) typeInv(v Val, cs *[]*Term) {
 		}
 	case *FuncV:
 		*cs = append(*cs, le(tZero, v.Id))
+		if nt, ok := v.T.(*types.Named); ok && nt.Obj().Pkg() != nil {
+			if blk, ok := x.eng.ftBlock[nt.Obj().Pkg().Path()+"::"+nt.Obj().Name()]; ok {
+				// closed world: a value of this unexported-constructor func type is nil or one of the functions converted to it
+				*cs = append(*cs, or(eq(v.Id, tZero), and(le(intLit(int64(blk[0])), v.Id), le(v.Id, intLit(int64(blk[1]))))))
+			}
+		}
 	case *SliceV:
 		*cs = append(*cs, le(tZero, v.Arr), lt(v.Arr, x.st.alloc), le(tZero, v.Off), le(tZero, v.Len), le(v.Len, v.Cap),
 			le(v.Cap, bigLit("4611686018427387904")),
